@@ -25,6 +25,7 @@ relative to the translation scale |tau|_inf * max(1, (e^sigma-1)/sigma), unit no
 from __future__ import annotations
 
 import math
+import warnings
 
 import torch
 
@@ -689,6 +690,15 @@ def _corpus_batches():
                         ties.append((list(CORNER_TAUS[1]) if has_t else []) + [th * dd[0], th * dd[1], th * dd[2]] + ([sg] if has_s else []))
                 for comp in ((v, v, v), (v, -v, v), (v, v, 0.0), (-v, 0.0, v)):
                     ties.append(([v, v, v] if has_t else []) + list(comp) + ([v] if has_s else []))
+            # NEAR coincidences, between round-off and the default tolerances of allclose / isclose (rtol 1e-5, atol 1e-8): a hidden
+            # "helpful" heuristic keyed on `isclose(theta, |sigma|)`, `isclose(x, 0)` … only shows in this band; huge tau so it matters
+            for v in (0.5, 1e-3, 2.0, 1e-7):
+                for rel in (1e-6, -1e-6, 1e-9, 3e-6, -1e-5, 1e-12):
+                    for sgn in (1.0, -1.0):
+                        ties.append(([TAU_MAX, -2.0, 0.5] if has_t else []) + [0.0, 0.0, v] + ([sgn * v * (1 + rel)] if has_s else []))
+            for v in (1e-9, 1e-8 * (1 - 1e-3), 1e-8 * (1 + 1e-3), 1e-6, 1e-5 * (1 - 1e-3), 1e-5 * (1 + 1e-3)):
+                ties.append(([1e6, -2e6, 3e5] if has_t else []) + [v * d[0], v * d[1], v * d[2]] + ([v] if has_s else []))
+                ties.append(([1e6, -2e6, 3e5] if has_t else []) + [1.0 * d[0], 1.0 * d[1], 1.0 * d[2]] + ([-v] if has_s else []))
             for i in range(0, len(ties), 20):
                 yield name, dtype, ties[i:i + 20], (len(ties[i:i + 20]),), 0
             # degenerate shapes
@@ -851,7 +861,8 @@ def run_large(ctx: Ctx, configs):
                     if bool(neq.any()):
                         bad = (int(neq.nonzero()[0]), f"cut at {a}")
                         break
-            sample = sorted({0, n - 1, n - 2, (1 << 14), (1 << 16), n // 3} & set(range(n)))
+            blocks = {((n - 1) >> k) << k for k in (10, 12, 14, 16, 17, 18, 20)}          # first item of the last (partial) block of size 2^k
+            sample = sorted(({0, n - 1, n - 2, n - 37, (1 << 14), (1 << 16), (1 << 17), (1 << 18), n // 3} | blocks | {b - 1 for b in blocks}) & set(range(n)))
             if bad is None:
                 for i in sample:
                     Ti, Mi = f(rows[i:i + 1])
@@ -867,7 +878,7 @@ def run_large(ctx: Ctx, configs):
                          f"same item evaluated in a smaller batch ({how}): batched {Tf[i].tolist()} vs {alone_T[0].tolist()}; x = {xi}")
                 continue
             # the property itself on sampled items of the LARGE result (mpmath), including the last item
-            for i in sample[:1] + sample[-2:]:
+            for i in sample[:1] + sample[-3:]:
                 xi = rows[i].double().tolist()
                 E = truth_matrix(name, xi)
                 want_m = [float(E[r, c]) for r in range(m) for c in range(m)]
@@ -892,14 +903,17 @@ def large_configs(quick):
     cfg = []
     for name in U.GROUPS:
         cfg += [(name, "float64", (K14 + 1,)), (name, "float32", (K14 + 1,)), (name, "float32", (K14,)), (name, "float64", (128, 129)),
-                (name, "float64", (K16 + 1,)), (name, "float32", (1, K16 + 1)), (name, "float64", (2 * K14 + 1,))]
+                (name, "float64", (K16 + 1,)), (name, "float32", (1, K16 + 1)), (name, "float64", (2 * K14 + 1,)),
+                (name, "float32" if name in ("SO3", "Sim3") else "float64", ((1 << 17) + 1,))]
     if not quick:
         for name in U.GROUPS:
             for dtype in ("float64", "float32"):
                 for k in (10, 13, 14, 15, 16):
                     for dn in (-1, 0, 1):
                         cfg.append((name, dtype, ((1 << k) + dn,)))
-                cfg += [(name, dtype, (257, 257)), (name, dtype, (3, K14 + 1)), (name, dtype, (K14 + 1, 1)), (name, dtype, (3 * K14 + 1,))]
+                cfg += [(name, dtype, (257, 257)), (name, dtype, (3, K14 + 1)), (name, dtype, (K14 + 1, 1)), (name, dtype, (3 * K14 + 1,)),
+                        (name, dtype, ((1 << 18) + 1,)), (name, dtype, ((1 << 18) + 37,))]
+            cfg.append((name, "float64" if name in ("SO3", "SE3") else "float32", ((1 << 20) + 1,)))
     return cfg
 
 # ----------------------------------------------------------------------------- glue stream (dispatch, shapes, dtype eps in the model)
@@ -1041,6 +1055,169 @@ def run_glue(ctx: Ctx, n_random):
                 ctx.disagree("glue", c, f"{lt} {dtype} shape {case['shape']} item {i}: blocks beyond tolerance against the model's own "
                                         f"dispatch/eps (x tol) {bad}; x = {xi}")
 
+
+
+# ----------------------------------------------------------------------------- every other LieTensor operation between two Exp/matrix() calls
+
+def _other_ops(P, name, D, shape, rng_state):
+    """(label, thunk) for every other public LieTensor operation of group type `name` on a batch of `shape` (() = unbatched),
+    forward and, where differentiable, with a backward pass.  Built from fixed numbers (seed independent)."""
+    import itertools
+    k = rng_state[0]
+    rng_state[0] += 1
+    n = int(math.prod(shape)) if shape else 1
+    d = CORNER_DIRS[1]
+    alg = []
+    for i in range(n):
+        th, sg = 0.3 + 0.2 * ((k + i) % 5), 0.25 * (-1) ** (k + i)
+        row = ([0.5, -1.0 - i, 0.25] if name in ("SE3", "Sim3") else []) + [th * d[0], th * d[1], th * d[2]] + ([sg] if name in ("RxSO3", "Sim3") else [])
+        alg.append(row)
+    a_t = torch.tensor(alg, dtype=torch.float64).reshape(tuple(shape) + (U.ADIM[name],)).to(D)
+    lta, ltg = alg_ltype(name), U.ltype(name)
+
+    def G(req=False):
+        with torch.no_grad():
+            base = P.LieTensor(a_t.clone(), ltype=lta).Exp().tensor().clone()
+        if req:
+            base.requires_grad_(True)
+        return P.LieTensor(base, ltype=ltg), base
+    p3 = torch.tensor([0.3, -0.7, 1.1], dtype=D).expand(tuple(shape) + (3,)).clone()
+    p4 = torch.tensor([0.3, -0.7, 1.1, 1.0], dtype=D).expand(tuple(shape) + (4,)).clone()
+    av = P.LieTensor(0.5 * a_t.clone(), ltype=lta)
+    fw = [("Log", lambda X: X.Log().tensor()), ("Inv", lambda X: X.Inv().tensor()), ("Mul@", lambda X: (X @ X).tensor()),
+          ("Mul*", lambda X: (X * X).tensor()), ("Act3", lambda X: X.Act(p3)), ("Act4", lambda X: X.Act(p4)),
+          ("Adj", lambda X: X.Adj(av).tensor()), ("AdjT", lambda X: X.AdjT(av).tensor()), ("Jinvp", lambda X: X.Jinvp(av).tensor()),
+          ("Retr", lambda X: X.Retr(av).tensor()), ("matrix", lambda X: X.matrix()), ("rotation", lambda X: X.rotation().tensor()),
+          ("translation", lambda X: X.translation()), ("scale", lambda X: X.scale()), ("Jr", lambda X: X.Jr()),
+          ("add", lambda X: (X + 0.1 * a_t).tensor()), ("Log.Exp", lambda X: X.Log().Exp().tensor()),
+          ("identity_like", lambda X: P.identity_like(X).tensor()), ("euler", lambda X: X.euler()),
+          ("cumprod", lambda X: X.cumprod(0).tensor() if X.dim() > 1 else X.tensor()), ("alg.Jr", lambda X: X.Log().Jr())]
+    out = []
+    for label, f in fw:
+        out.append((f"{name}.{label}", lambda f=f: f(G()[0])))
+
+        def bw(f=f):
+            X, base = G(True)
+            r = f(X)
+            if r.requires_grad:
+                r.sum().backward()
+            return r
+        out.append((f"{name}.{label}+backward", bw))
+    return out
+
+
+def interleave_probe(ctx: Ctx, lines, metas):
+    """between two identical `Exp` / `matrix()` evaluations EVERY other public LieTensor operation is run (all four group types,
+    both dtypes, unbatched / all-1 batch / batched, forward and with backward); after each of them the reference evaluations of that
+    dtype are repeated and must be bit-identical to the first ones; at the end the references go through the model as well.
+    A module-level constant written in place by another operation on a degenerate shape only shows in such a history."""
+    P = U.pp()
+    refs = {}
+    d = CORNER_DIRS[1]
+    for dtype in ("float64", "float32"):
+        D = U.dt(dtype)
+        e = common.EPS[dtype]
+        for name in U.GROUPS:
+            has_s, has_t = name in ("RxSO3", "Sim3"), name in ("SE3", "Sim3")
+            rows = [(list(CORNER_TAUS[1]) if has_t else []) + [th * d[0], th * d[1], th * d[2]] + ([sg] if has_s else [])
+                    for th, sg in ((1.0, 0.5), (0.0, 0.0), (e / 2, -e / 2), (3.5, -1.0))]
+            r64 = U.to_dtype_exact(rows, dtype)[1].tolist()
+            x = torch.tensor(r64, dtype=torch.float64).to(D)
+            single = x[0].clone()
+
+            def ev(x=x, single=single, name=name):
+                lt_ = alg_ltype(name)
+                X = P.LieTensor(x, ltype=lt_).Exp()
+                X1 = P.LieTensor(single, ltype=lt_).Exp()
+                return [X.tensor().clone(), X.matrix().clone(), X1.matrix().clone()]
+            try:
+                refs[(name, dtype)] = (ev, ev(), r64)
+            except Exception as ex:
+                ctx.fail({"stream": "interleave", "type": name, "dtype": dtype, "X": r64},
+                         f"raises: Exp/matrix on {U.ALG[name]} {dtype} raised {type(ex).__name__}: {str(ex)[:140]}")
+    state = [0]
+    poisoned = set()
+    for dtype in ("float64", "float32"):
+        D = U.dt(dtype)
+        for shape in ((), (1,), (1, 1), (3,)):
+            for gname in U.GROUPS:
+                ops = _other_ops(P, gname, D, shape, state)
+                for oi, (label, thunk) in enumerate(ops):
+                    try:
+                        with warnings.catch_warnings():
+                            warnings.simplefilter("ignore")
+                            thunk()
+                        ctx.count("interleave.ops-run")
+                    except Exception:
+                        ctx.count("observation.interleave.other-op-raised")   # not this property's business
+                    last = oi == len(ops) - 1
+                    for (name, dt_), (ev, first, r64) in refs.items():
+                        if dt_ != dtype or (name, dt_) in poisoned:
+                            continue
+                        if not last and name not in ("Sim3", "SO3"):   # 4x4 and 3x3 constants; all four types after each block
+                            continue
+                        try:
+                            now = ev()
+                        except Exception as ex:
+                            now = None
+                            what = f"raised {type(ex).__name__}: {str(ex)[:100]}"
+                        if now is None or not all(torch.equal(torch.nan_to_num(a), torch.nan_to_num(b)) for a, b in zip(now, first)):
+                            if now is not None:
+                                which = ["Exp().tensor()", "Exp().matrix()", "Exp().matrix() [single item]"]
+                                k = [torch.equal(torch.nan_to_num(a), torch.nan_to_num(b)) for a, b in zip(now, first)].index(False)
+                                what = f"{which[k]} changed by {float((now[k].double() - first[k].double()).abs().max()):.3e}"
+                            poisoned.add((name, dt_))
+                            ctx.fail({"stream": "interleave", "type": name, "dtype": dt_, "X": r64, "after": label, "op_shape": list(shape), "op_dtype": dtype},
+                                     f"poisoned: after {label} on a {dtype} batch of shape {tuple(shape)}, the same {U.ALG[name]} {dt_} evaluation as before: {what} "
+                                     f"(x = {r64[0]} …)")
+                        ctx.note_case(("interleave", name, dt_, label, tuple(shape)), True)
+    # the references once more, now through the model (and the oracle if they disagree)
+    for (name, dtype), (ev, first, r64) in refs.items():
+        check_batch(ctx, "interleave", name, dtype, r64, (len(r64),), 0, lines, metas)
+        check_batch(ctx, "interleave", name, dtype, r64[:1], (), 0, lines, metas)
+
+
+def dtype_probe(ctx: Ctx):
+    """every floating dtype the entry point accepts besides float32/float64 (float16, bfloat16): undocumented, so what the clean
+    tree does is an OBSERVATION — except that a result, when one is returned, must have the dtype of the argument (no silent
+    promotion) and bfloat16 values (which the clean tree gets right) stay within the property's tolerance in bfloat16 eps"""
+    P = U.pp()
+    d = CORNER_DIRS[1]
+    lines, metas = [], []
+    for dtn, D, e in (("bfloat16", torch.bfloat16, 2.0 ** -7), ("float16", torch.float16, 2.0 ** -10)):
+        for name in U.GROUPS:
+            has_s, has_t = name in ("RxSO3", "Sim3"), name in ("SE3", "Sim3")
+            rows = [(list(CORNER_TAUS[1]) if has_t else []) + [th * d[0], th * d[1], th * d[2]] + ([sg] if has_s else [])
+                    for th, sg in ((1.0, 0.5), (0.25, -0.5), (2.0, 0.125), (0.5, 1.0))]
+            x = torch.tensor(rows, dtype=torch.float64).to(D)
+            r64 = x.double().tolist()
+            case = {"stream": "dtype", "type": name, "dtype": dtn, "X": r64}
+            try:
+                X = P.LieTensor(x, ltype=alg_ltype(name)).Exp()
+                T, M = X.tensor(), X.matrix()
+            except Exception:
+                ctx.count(f"observation.dtype.{dtn}.raises")
+                continue
+            if T.dtype != D or M.dtype != D:
+                ctx.fail(case, f"dtype: Exp/matrix of a {dtn} {U.ALG[name]} tensor returned {T.dtype} / {M.dtype} (silent promotion)")
+                continue
+            if not (bool(torch.isfinite(T).all()) and bool(torch.isfinite(M).all())):
+                ctx.count(f"observation.dtype.{dtn}.nonfinite")
+                continue
+            ctx.count(f"dtype.{dtn}.ok")
+            if dtn == "bfloat16":
+                g = U.GDIM[name]
+                for i, xi in enumerate(r64):
+                    lines.append(U.model_call(f"c01.{U.ALG[name]}", e, xi))
+                    metas.append((case, name, xi, T[i].double().tolist(), M[i].double().reshape(-1).tolist()))
+    common.EPS.setdefault("bfloat16", 2.0 ** -7)
+    for rep, (case, name, xi, gt, gm) in zip(ctx.driver.run(lines), metas):
+        g = U.GDIM[name]
+        w = U.fl(common.reply_nums(rep))
+        bad = bad_blocks(item_errors(name, "bfloat16", xi, gt, gm, w[:g], w[g:]))
+        ctx.note_case(("dtype", name, "bfloat16", tuple(xi)), True)
+        if bad:
+            ctx.fail(case, f"dtype: bfloat16 {U.ALG[name]} Exp beyond the property's tolerance in bfloat16 eps (x tol) {bad}; x = {xi}")
 
 # ----------------------------------------------------------------------------- grad-mode orders on fresh keys (cache poisoned by a mode)
 
@@ -1292,6 +1469,8 @@ def _run(ctx: Ctx):
     mode_order_probe(ctx)      # first: its batch shapes must be fresh in the process
     probe(ctx)
     lines, metas = [], []
+    interleave_probe(ctx, lines, metas)
+    dtype_probe(ctx)
     run_corpus(ctx, lines, metas)
     run_grid(ctx, lines, metas, reps_per_cell=ctx.pick(1, 10))
     run_random(ctx, ctx.pick(600, 20000), lines, metas)
@@ -1336,6 +1515,13 @@ def replay(ctx: Ctx, case) -> bool:
         run_large(ctx, [(c["type"], c["dtype"], tuple(c["shape"]))])
         for f in ctx.failures[:5]:
             print("  fails:", f["what"][:400])
+        return not ctx.failures
+    if c.get("stream") in ("interleave", "dtype") and "shape" not in c:
+        print(f"  re-running the {c['stream']} probe ({c.get('type')}, {c.get('dtype')}, after {c.get('after')})")
+        l_, m_ = [], []
+        interleave_probe(ctx, l_, m_) if c["stream"] == "interleave" else dtype_probe(ctx)
+        for f in ctx.failures[:5]:
+            print("  fails:", f["what"][:300])
         return not ctx.failures
     if c.get("stream") == "mode-order":
         print(f"  re-running the grad-mode order probe ({c.get('type')}, {c.get('dtype')}, order {c.get('order')})")
